@@ -233,7 +233,7 @@ def check(res, rule="PY-STALE-ALIAS"):
                            "pins the node for the duration of the call)" % (name, attr, attr),
                     path=[]))
     res.count(rule, n + aliases)
-    res.floor("local aliases of node state lists (Python)", aliases, 12)
+    res.floor("local aliases of node state lists (Python)", aliases, 9)
     res.extra["python_state_attributes"] = sorted(attrs)
     res.extra["python_comparing_functions"] = sorted(comparing)
     return n
